@@ -24,7 +24,7 @@ from vlib.oracles import loguniform
 
 ID = "C12"
 LEVEL = "exploration"
-RULE = ("each case is a seeded batch of (law, stiffness Ei/Fi, B_Gamma, B_Gamma0, B_Kappa, B_Kappa0) for one law "
+RULE = ("(stiffness vectors are handed to the constructor as float ndarray, integer ndarray, list of ints, list of floats or tuple - all valid array-likes) each case is a seeded batch of (law, stiffness Ei/Fi, B_Gamma, B_Gamma0, B_Kappa, B_Kappa0) for one law "
         "(Simo1986 / Harsch2021) and one input regime (near/moderate/far from the reference strain, pure stretch, "
         "stress-free, unit and non-unit |B_Gamma0|, zero and non-zero reference curvature, stiffness 1e-3..1e6 "
         "isotropic-like or spread over decades), plus directed cases; distinct = distinct batch content hash; "
@@ -271,12 +271,29 @@ def _harsch_defect_model(Ei, G, G0):
     return Ei[0] * (1.0 - lam0) * np.outer(G, G) / lam**3  # claimed - true on the pinned tree
 
 
-def check_sample(ctx, judge, lawname, Ei, Fi, G, G0, K, K0):
+def _represent(rng, Ei, Fi):
+    """the same stiffness values handed to the constructor under another representation (the documented argument is an
+    'array-like' of three positive numbers): integer ndarray / list of ints (values rounded to integers first), list of floats,
+    tuple. Returns (Ei_float, Fi_float, Ei_arg, Fi_arg, class)"""
+    c = int(rng.integers(8))
+    if c >= 4:
+        return Ei, Fi, Ei, Fi, "stiffness_repr:float_array"
+    if c in (0, 1):
+        Ei, Fi = np.maximum(np.rint(Ei), 1.0), np.maximum(np.rint(Fi), 1.0)
+        if c == 0:
+            return Ei, Fi, Ei.astype(int), Fi.astype(int), "stiffness_repr:int_array"
+        return Ei, Fi, [int(v) for v in Ei], [int(v) for v in Fi], "stiffness_repr:int_list"
+    if c == 2:
+        return Ei, Fi, [float(v) for v in Ei], [float(v) for v in Fi], "stiffness_repr:float_list"
+    return Ei, Fi, tuple(float(v) for v in Ei), np.maximum(np.rint(Fi), 1.0).astype(int), "stiffness_repr:tuple+int_array"
+
+
+def check_sample(ctx, judge, lawname, Ei, Fi, G, G0, K, K0, ctor=None):
     from cardillo.rods import _material_models as mm
 
     Ei, Fi, G, G0, K, K0 = (np.array(a, dtype=float) for a in (Ei, Fi, G, G0, K, K0))
     args0 = [a.copy() for a in (Ei, Fi, G, G0, K, K0)]
-    law = getattr(mm, lawname)(Ei, Fi)
+    law = getattr(mm, lawname)(*(ctor if ctor is not None else (Ei, Fi)))
     site = lawname
     det = {"law": lawname, "Ei": Ei, "Fi": Fi, "B_Gamma": G, "B_Gamma0": G0, "B_Kappa": K, "B_Kappa0": K0}
     Emax, Fmax = float(Ei.max()), float(Fi.max())
@@ -418,8 +435,15 @@ def run_case(spec, ctx):
         if law == "Harsch2021" and abs(lam0 - 1) >= 1e-15:
             ctx.count("masked_stratum:Harsch2021.B_n_B_Gamma with |B_Gamma0| != 1")
         strained |= bool(np.any(G != G0) or np.any(K != K0))
+        ctor = None
+        if spec["kind"] != "directed":
+            Ei, Fi, Ea, Fa, rc = _represent(rng, Ei, Fi)
+            if rc.endswith("tuple+int_array"):
+                Fi = np.asarray(Fa, dtype=float)
+            ctor = (Ea, Fa)
+            ctx.cls(rc)
         sig.append([a.tolist() for a in (Ei, Fi, G, G0, K, K0)])
-        check_sample(ctx, judge, law, Ei, Fi, G, G0, K, K0)
+        check_sample(ctx, judge, law, Ei, Fi, G, G0, K, K0, ctor=ctor)
     ctx.sig([law, sig], nontrivial=strained and judge.decided > 0)
     ctx.sample({"law": law, "regime": spec.get("regime", "directed"), "batch": len(sig),
                 "first": dict(zip(("Ei", "Fi", "B_Gamma", "B_Gamma0", "B_Kappa", "B_Kappa0"), sig[0]))})
@@ -435,3 +459,11 @@ META = {
                   "violation only when both derivative oracles reject it; relative floor 1e-9 (complex step) / 1e-6 (finite differences).",
     "technique": "runtime return-value monitors with complex-step and finite-difference derivative oracles and Legendre-duality identities",
 }
+
+
+def finalize(agg):
+    reasons = []
+    for k in ("stiffness_repr:int_array", "stiffness_repr:int_list", "stiffness_repr:float_list", "stiffness_repr:float_array"):
+        if agg["classes"].get(k, 0) == 0:
+            reasons.append(f"input class {k} never reached")
+    return reasons
